@@ -39,7 +39,7 @@ PROPERTY = "C18"
 LEVEL = "exploration"
 RULE = ("Generated Gaussian models d = f(xi) + n with standard normal xi on 1-2 keys (sizes <= 5 each), f linear "
         "(dyadic response matrices incl. rank-deficient and wide/tall ones) or mildly nonlinear (exp, tanh, product "
-        "of two keys), diagonal N; generated expansion point, number of samples 1-3, mirroring, point estimates, "
+        "of two keys), diagonal N, real or complex data (JAX also complex parameters); generated expansion point, number of samples 1-3, mirroring, point estimates, "
         "constants, napprox (classic), layouts/jit/map strategies (JAX). Oracle: white-noise tape => sampling matrix "
         "S of the residuals; S*0 == 0, residuals linear in the tape, S S^T == (1 + J^T N^-1 J)^-1 (closed-form J at "
         "the expansion point, dense NumPy inverse), different samples independent, mirrored partners bitwise "
@@ -66,6 +66,12 @@ ASSUMPTIONS = [
     "demands that they broadcast to the leaf shape and are exactly zero",
     "resample modes of OptimizeVI.draw_samples derive their keys by jax.random.split(key, n_samples); the check "
     "computes the same keys with jax.random and demands agreement with the per-key draw_linear_residual",
+    "complex data with real parameters (about 1/4 of the models): the energy 1/2 Re r^H N^-1 r gives the real and the "
+    "imaginary part of the noise the variance `var` each, metric 1 + Re(J^H N^-1 J); complex parameters (JAX eager "
+    "sub-check only, linear response): standard prior 1/2 p^H p, i.e. unit variance per real and imaginary part",
+    "the JAX white-noise table replaces `random_like` including its convention for complex dtypes, so it reproduces "
+    "jax.random.normal's (real and imaginary part of variance 1/2: (a + i b)/sqrt(2) for unit tape coordinates a, b); "
+    "that this is what the real jax.random delivers is covered end-to-end by the Monte-Carlo backstop",
     "Monte-Carlo backstops: whitened second moments / means, thresholds from Laurent-Massart chi-square tail "
     "bounds with x = 32 (per-event probability <= exp(-32); < 1e-10 per run after the union bound)",
 ]
@@ -911,8 +917,13 @@ def response(draw, nd, n):
         r = draw(st.integers(1, min(nd, n) - 1))
         A = np.array(draw(S.mat(nd, r, st.integers(-2, 2))), dtype=np.float64)
         B = np.array(draw(S.mat(r, n, S.dyadic(-1.0, 1.0, 2))), dtype=np.float64)
-        return (A @ B).tolist()
+        Rm = A @ B
+        if not Rm.any():
+            Rm[0, 0] = 1.0
+        return Rm.tolist()
     Rm = np.array(draw(S.mat(nd, n, ENTRY)), dtype=np.float64)
+    if not Rm.any():
+        Rm[-1, -1] = 1.0            # an all-zero response makes the likelihood void: keep it rare
     if style == "zerocol":
         Rm[:, draw(st.integers(0, n - 1))] = 0.0
     if style == "duprow" and nd >= 2:
@@ -1002,7 +1013,7 @@ def re_linear_recipes(tier):
             model = draw(models(nmax=4))
         cfg = _re_cfg(draw, model, False)
         cfg["geo"] = model["kind"] == "lin"
-        cfg["geo_rows"] = [draw(st.integers(0, 40)), 10**6]     # one generated row and the last dense key
+        cfg["geo_rows"] = [draw(st.integers(0, 40)), -1]        # one generated table row and the last dense key
         cfg["maxiter"] = draw(st.sampled_from([1, 5]))
         return {"model": model, "cfg": cfg}
     return rec()
@@ -1049,13 +1060,13 @@ SUBS = [
         rule=NT + "black box, library RNG under a generated seed: whitened second moments and means of 1200 "
                   "(thorough 6000) MGVI residuals within Laurent-Massart bounds (x=32)"),
     Sub(name="re_linear_residual", check=check_re_linear, strategy=re_linear_recipes, quick=100, thorough=4000,
-        shards=4, jax=True,
+        shards=5, jax=True, budget_quick=100.0,
         rule=NT + "nifty.re.draw_linear_residual (eager) under the key-indexed white-noise table: covariance of the "
                   "residual == M^-1, of the metric sample == M, residual == M^-1 metric sample, zero key => exactly "
                   "zero, linearity, point-estimated leaves exactly zero; linear models: "
                   "nonlinearly_update_residual returns +-linear sample for both signs"),
-    Sub(name="re_driver_samples", check=check_re_driver, strategy=re_driver_recipes, quick=28, thorough=600,
-        shards=4, jax=True, budget_quick=100.0,
+    Sub(name="re_driver_samples", check=check_re_driver, strategy=re_driver_recipes, quick=30, thorough=600,
+        shards=5, jax=True, budget_quick=100.0,
         rule=NT + "OptimizeVI.draw_samples in linear_sample / nonlinear_sample mode under 5 (residual_map, jit) "
                   "configurations with table keys: covariance, order and bitwise negativity of mirrored partners, "
                   "average == expansion point, point estimates, keys kept; linear_resample: keys == "
